@@ -223,6 +223,13 @@ func (x *fx) instr(in ssa.Instruction) {
 			gfn = cal.Fn.(*ssa.Function)
 		}
 		if gfn != nil {
+			if gc := e.P.Contracts.Funcs[FuncKey(gfn)]; gc != nil && gc.Deferred {
+				// the goroutine cannot take effect before this activation returns (it
+				// blocks on a lock this activation holds until its deferred unlock)
+				e.note("goroutine " + FuncKey(gfn) + " started in " + x.fn.Name() + ": its effects happen after this activation returns (blocks on the lock held here); not part of this call")
+				e.trusted["goroutine "+FuncKey(gfn)+" blocks on the crew lock until the spawning call returns"] = true
+				return
+			}
 			if gc := e.P.Contracts.Funcs[FuncKey(gfn)]; gc != nil && !gc.Inline {
 				e.note("goroutine " + FuncKey(gfn) + " started in " + x.fn.Name() + ": treated as a call of its contract at the spawn point (interleavings not modelled)")
 				x.call(i)
@@ -250,11 +257,10 @@ func (x *fx) instr(in ssa.Instruction) {
 		x.rets = append(x.rets, retInfo{reach: x.curReach, st: st.clone(), vals: x.valsOf(i.Results)})
 	case *ssa.If, *ssa.Jump:
 	case *ssa.Send:
-		e.note("channel send in " + x.fn.Name())
-		x.unknownEffect(&Effects{All: true, Why: "channel send"})
+		// channels are not part of the heap model: a send changes no heap object
+		e.note("channel send in " + x.fn.Name() + " (no heap effect; blocking and interleavings not modelled)")
 	case *ssa.Select:
-		e.note("select in " + x.fn.Name())
-		x.unknownEffect(&Effects{All: true, Why: "select"})
+		e.note("select in " + x.fn.Name() + " (no heap effect; which case fires is unconstrained)")
 		var ts []Term
 		tup := i.Type().(*types.Tuple)
 		for k := 0; k < tup.Len(); k++ {
